@@ -30,7 +30,7 @@ func checkC11(c *Ctx) {
 		kind       string
 	}
 	var jobs []job
-	for _, nt := range ntCases(c.Pick(3, 4)) {
+	for _, nt := range ntCases(c.Pick(4, 5)) {
 		for _, k := range c11Kinds {
 			for D := 0; D < nt.N; D++ {
 				for V := 0; V < nt.N; V++ {
